@@ -17,7 +17,10 @@ ODD_S = ['STORY1', 'STORY10', 'story1', 'OPENMEDIA_NCS.W1.BBC.MOS;OM_4.15;OM_4.1
          'a&b', 'x<y', 'é中', '42', '007', 'S 1', ' S1', 'None', '0',
          # quotes, format-string characters, IDs that share the part before / after a comma
          "PM'S SPEECH", 'say "hi"', 'VAT 20% RISE', 'clip%sfinal', '{0}', 'OM_4.15,4.1', 'OM_4.15,4.2',
-         'OM_9.1,4.1', '1', '12', 'S1 ', 'a\\b']
+         'OM_9.1,4.1', '1', '12', 'S1 ', 'a\\b',
+         # long, tag-like, number-like, normalisation pairs, inner line break / tab
+         'L' * 150, 'story', 'storyID', 'item', 'True', 'null', '1.0', '01', '\u00e9', 'e\u0301', 'a\tb', 'a\nb',
+         '\u212b', '\u00c5', 'S0/1', '../S0', '#1', '*', '[S0]', 'S0|S1', '$(id)', '\u00a0S0']
 STORY_POOL = SIMPLE_S + ODD_S
 NEW_S = [f'N{i}' for i in range(8)] + ['STORY100', 'n&w', 'NEW;1,2', 'ü1']
 UNKNOWN_S = ['ZZ-unknown', 'S', 'S00', 'story', 'STORY', 'é', '-1', "O'NEILL", '100%', '%s %d', '{x}',
@@ -25,7 +28,8 @@ UNKNOWN_S = ['ZZ-unknown', 'S', 'S00', 'story', 'STORY', 'é', '-1', "O'NEILL", 
 
 SIMPLE_I = [f'I{i}' for i in range(10)]
 ODD_I = ['ITEM1', 'ITEM10', 'item1', '1', 'i&1', 'OM_4.15.1;7', 'ï2', "O'BRIEN-VT", '2', '12', '10', '50%',
-         'clip%d', 'OBJ,1.1', 'OBJ,1.2', 'ALT,1.1', 'S0', 'S1']
+         'clip%d', 'OBJ,1.1', 'OBJ,1.2', 'ALT,1.1', 'S0', 'S1',
+         'M' * 120, 'item', 'itemID', '01', '1.0', 'e\u0301', '\u00e9', 'i\tj', '[0]', '*', 'I0|I1']
 ITEM_POOL = SIMPLE_I + ODD_I
 NEW_I = [f'J{i}' for i in range(8)] + ['ITEM100', 'j<1']
 UNKNOWN_I = ['ZZ-unknown-item', 'I', 'I00', 'item', '-1', "it'em", '7%', '%(id)s', 'OBJ,9.9', 'NONE,1.1']
@@ -114,7 +118,8 @@ def para_run():
     return st.sampled_from(PARA_RUNS).map(lambda run: [P(t) for t in run])
 
 
-DURS = ['0', '1', '2', '3', '5', '10', '0.25', '0.5', '1.75', '12.5', '100', '59.04']
+DURS = ['0', '1', '2', '3', '5', '10', '0.25', '0.5', '1.75', '12.5', '100', '59.04', '0.0', '00', '+5', '005',
+        '3.0000001', '86399.99', '1E1', '7.', '.25', ' 6 ']
 DUR = st.sampled_from(DURS)
 TIME_TEXTS = ['2020-01-01T12:30:00', '2021-06-30T23:59:59', '1999-12-31T00:00:01',
               '2020-02-29T06:00:00.250000', '2020-01-01T12:31', '2021-06-30T23:59']
@@ -298,6 +303,10 @@ def running_order(draw, min_stories=0, max_stories=6, max_items=4, rich=True,
     """-> dict(ro_xml, ro_id, mid)"""
     pool_s = SIMPLE_S if simple_ids else STORY_POOL
     pool_i = SIMPLE_I if simple_ids else ITEM_POOL
+    if rich and draw(st.integers(0, 11)) == 0:
+        # now and then a long running order / long stories (10+ stories, 8 items)
+        max_stories, max_items = max(max_stories, 12), max(max_items, 8)
+        min_stories = max(min_stories, min(10, max_stories))
     sids = draw(distinct(pool_s, min_stories, max_stories))
     stories = []
     for sid in sids:
@@ -354,6 +363,8 @@ def one_ref(draw, existing, unknown_pool, faults):
 def id_list(draw, existing, unknown_pool, faults, min_size=1, max_size=4, degenerate=False):
     """Ordered list of distinct existing IDs, optionally salted with unknown /
     blank entries (faults) or repeated entries (degenerate)."""
+    if len(existing) > 5 and draw(st.integers(0, 3)) == 0:
+        max_size = max(max_size, 9)          # long lists when the running order allows
     k = draw(st.integers(min_size, max(min_size, min(max_size, len(existing)))))
     ids = list(draw(pick(existing, k))) if existing else []
     if faults != 'none':
